@@ -444,6 +444,8 @@ def run_conc(prop, scenarios, work, tag):
 
 # protocol models: kind -> (MC module, exhaustive cfgs quick, exhaustive cfgs thorough, simulation cfgs, variant cfgs)
 CONC_MODELS = {
+    "exec": ("MCExecProto", ["exec_q1", "exec_q2", "exec_q3", "exec_q4"], ["exec_t1"], ["exec_enum1", "exec_sim1", "exec_sim2"],
+             ["exec_var_swap"]),
     "signal": ("MCSignalProto", ["sig_q1", "sig_q2", "sig_q6"], [], ["sig_enum3", "sig_sim1"], []),
     "blockon": ("MCSignalProto", ["sig_q3", "sig_q4", "sig_q5"], [], ["sig_enum1", "sig_enum2", "sig_sim3"], ["sig_var_swap", "sig_var_notify"]),
     "chan": ("MCChanProto", ["chan_q1", "chan_q2", "chan_q3", "chan_q4"], ["chan_t1", "chan_t2", "chan_t3"], ["chan_enum1", "chan_sim1", "chan_sim2"],
@@ -455,8 +457,13 @@ CONC_MODELS = {
 
 def conc_project(events):
     out = []
+    over = False
     for ev in events:
         e = ev.get("e")
+        if e == "loop_done":
+            over = True      # what is dropped at teardown (pending futures) is not part of the protocol
+        if over and e == "fdrop":
+            continue
         if e == "y" and ev.get("l") != "start":
             out.append(("y", ev["t"], ev["l"]))
         elif e == "call":
@@ -527,6 +534,10 @@ def model_schedules(kind, prop, tier, seed, work, res):
             threads = {str(i + 1): scripts[i] for i in range(len(scripts))}
             scn = {"id": sid, "kind": kind, "threads": threads, "loop": ["dispatch"] * b["ndisp"],
                    "schedule": b["sched"][:-1], "from_model": 1, "idle_ms": 4}
+            if "needs" in b:
+                scn["kind"] = "exec"
+                scn["threads"] = {t: [{"op": "wake", "f": f} for f in ops] for t, ops in threads.items()}
+                scn["loop"] = [{"op": "schedule", "f": i, "need": nd} for i, nd in enumerate(b["needs"])] + ["dispatch"] * b["ndisp"]
             if b.get("mode") == "run":
                 scn["kind"], scn["loop"] = "signal", ["run"]
             elif b.get("mode") == "blockon":
@@ -545,6 +556,55 @@ def model_schedules(kind, prop, tier, seed, work, res):
             res.transitions += int(mm.group(1))
         res.cmds.append("tlc -simulate num=%d -config mc/%s.cfg %s.tla -> drive_sched -> ConcTrace" % (n, cfg, mod))
     return scns, preds
+
+
+def scn_from_model(kind, sid, b, schedule):
+    scripts = b["scripts"]
+    threads = {str(i + 1): scripts[i] for i in range(len(scripts))}
+    scn = {"id": sid, "kind": kind, "threads": threads, "loop": ["dispatch"] * b.get("ndisp", 0),
+           "schedule": schedule, "from_model": 1, "idle_ms": 4}
+    if sid.startswith("att_"):
+        scn["final_dispatches"] = 12     # run to quiescence whatever the cut-off schedule left pending
+    for k in ("cap", "limit"):
+        if k in b and b[k] not in (None, -1):
+            scn[k] = b[k]
+    if "needs" in b:
+        scn["kind"] = "exec"
+        scn["threads"] = {t: [{"op": "wake", "f": f} for f in ops] for t, ops in threads.items()}
+        scn["loop"] = [{"op": "schedule", "f": i, "need": nd} for i, nd in enumerate(b["needs"])] + ["dispatch"] * b["ndisp"]
+    if b.get("mode") == "run":
+        scn["kind"], scn["loop"] = "signal", ["run"]
+    elif b.get("mode") == "blockon":
+        scn["kind"], scn["loop"] = "blockon", [{"op": "block_on", "need": b["need"]}]
+        scn["threads"] = {t: [{"op": "wake", "f": 0} if o == "wake" else o for o in ops] for t, ops in threads.items()}
+    return scn
+
+
+def attack_schedules(kind, work, res):
+    """For every deliberately wrong variant of the protocol model TLC finds the shortest schedule that breaks the
+    property in *that* variant; the schedule is then replayed on the real crate, which must survive it."""
+    mod, _, _, _, variants = CONC_MODELS[kind]
+    out = []
+    for v in variants:
+        cfg = v.replace("_var_", "_att_").replace("_kf_", "_att_")
+        if not os.path.exists("%s/mc/%s.cfg" % (SPEC, cfg)):
+            continue
+        r = tlc_model(mod, "mc/%s.cfg" % cfg, work, workers=1, timeout=300)
+        if r["ok"]:
+            raise ToolError("variant %s is not flagged by TLC: the invariants are vacuous for it" % cfg)
+        m = re.search(r'<<"CFG", "(.*)">>', r["out"])
+        sch = re.findall(r"/\\ sched = <<([0-9,\s]*)>>", r["out"])
+        if not m or not sch:
+            continue
+        b = json.loads(json.loads('"' + m.group(1) + '"'))
+        schedule = [int(x) for x in sch[-1].split(",") if x.strip()]
+        if schedule and schedule[-1] == 0:
+            schedule = schedule[:-1]     # the final, un-interleaved phase is run by the harness itself
+        out.append(scn_from_model(kind, "att_%s" % cfg, b, schedule))
+        res.states += r["distinct"]
+        res.transitions += r["generated"]
+        res.notes.append("variant %s: TLC counterexample schedule of length %d replayed on the real crate" % (v, len(schedule)))
+    return out
 
 
 def conc_conformance(preds, trace_path, res, label):
@@ -602,6 +662,7 @@ def engine_conc(prop, tier, seed, work):
                         raise ToolError("variant %s is not flagged by TLC: the invariants are vacuous for it" % cfg)
                     res.notes.append("variant %s flagged by TLC (%s)" % (cfg, ",".join(r["violated"])))
             scns, preds = model_schedules(kind, prop, tier, seed, work, res)
+            scns = attack_schedules(kind, work, res) + scns
             if scns:
                 r = run_conc(prop, scns, work, "concm_" + kind)
                 res.merge(r)
@@ -655,6 +716,8 @@ for _p in CONC_KINDS:
 
 # engines that live in their own module tools/engine_<name>.py (loaded lazily: they import this module)
 ENGINE_MODULES = {
+    "C12": ["engine_timeout"],
+    "C17": ["engine_asyncio"],
     "C18": ["engine_transient"],
     "C19": ["engine_signals"],
     "C20": ["engine_token"],
